@@ -21,6 +21,8 @@ package main
 //	          same generated package: plain identifiers, `{{pkg "x"}}Name` / `{{template "tokenPkg" .}}Name`
 //	          (other package), `v.member` where v is the receiver or a parameter of the enclosing function
 //	          whose type is a template-declared type. Comments, string and rune literals are skipped.
+//	          A call `v.m(` of a method that NO template declares for the template-declared type of v is a use
+//	          of a name without declaration sites (consistent only if the call can never be generated).
 //	          Labels are declared and used like identifiers, named `Func#label`; uses = goto / break / continue
 //	c17LabelNames name ids of the labels (Go also requires every label to be used)
 //	c17DefSigs one readable line per declaration site (pinned by the expectation table)
@@ -871,7 +873,38 @@ type c17Tok struct {
 	pkg        string // "" = current package, else the {{pkg}} qualifier
 	afterDot   bool
 	quals      []string // a.b.c: for c the chain [a b] (nil when the chain does not start at a plain identifier)
+	alts       []c17Alt // {{if}}a{{else}}b{{end}}.c: the alternative qualifiers, each a whole guarded segment
 	lineStart  bool
+}
+
+// c17Alt is one alternative qualifier of a selector: its text and the position of its first byte (the guards of
+// that byte's segment are those of the alternative).
+type c17Alt struct {
+	name string
+	pos  int
+}
+
+// altQualifiers: the identifiers of consecutive segments, each consisting of one identifier, that end right before
+// position dot (`{{if x}}stream{{else}}lexer{{end}}.`). Empty unless there are at least two.
+func (u *c17Buf) altQualifiers(dot int) []c17Alt {
+	b := u.b
+	var alts []c17Alt
+	end := dot // exclusive; b[end-1] must be the separator \x03
+	for end > 0 && b[end-1] == 3 {
+		k := end - 2
+		for k >= 0 && c17IsIdentByte(b[k]) {
+			k--
+		}
+		if k == end-2 || k < 0 || b[k] != 3 {
+			break
+		}
+		alts = append(alts, c17Alt{name: string(b[k+1 : end-1]), pos: k + 1})
+		end = k + 1
+	}
+	if len(alts) < 2 {
+		return nil
+	}
+	return alts
 }
 
 func (u *c17Buf) tokens() []c17Tok {
@@ -934,6 +967,9 @@ func (u *c17Buf) tokens() []c17Tok {
 				}
 				if k >= 0 && b[k] == 3 { // a name glued from several pieces
 					if bc, _ := u.prevReal(k + 1); c17IsIdentByte(bc) || bc == 0 {
+						if len(chain) == 0 && dot == pi {
+							t.alts = u.altQualifiers(dot)
+						}
 						ok = false
 						break
 					}
@@ -1191,8 +1227,11 @@ func (s *c17Scanner) uses(declared map[string]map[string]bool, types map[string]
 					if tp == "" {
 						tp = s.pkg
 					}
-					if tp == s.pkg && types[tp][b.name] && !a.afterDot && !c17Keywords[a.name] && !types[tp][a.name] {
-						scope[a.name] = b.name
+					// `{{if x}}stream *TokenStream{{else}}lexer *Lexer{{end}}`: the alternatives touch each other in the
+					// linearised text, which marks their names as glued (`*`); in a signature they are separate
+					an, bn := strings.Trim(a.name, "*"), strings.Trim(b.name, "*")
+					if tp == s.pkg && types[tp][bn] && !a.afterDot && !c17Keywords[an] && !types[tp][an] {
+						scope[an] = bn
 					}
 				}
 			} else if t.name != "" && !c17Keywords[t.name] {
@@ -1207,6 +1246,25 @@ func (s *c17Scanner) uses(declared map[string]map[string]bool, types map[string]
 			pkg := t.pkg
 			if declared[pkg][t.name] {
 				out = append(out, s.site(t, pkg, t.name, "use"))
+			}
+		case t.afterDot && len(t.alts) > 0:
+			// one use per alternative qualifier, under the guards of the alternative
+			for _, a := range t.alts {
+				tp, ok := scope[a.name]
+				if !ok {
+					continue
+				}
+				n := tp + "." + t.name
+				kind := "use"
+				if !declared[s.pkg][n] {
+					if nc, _ := s.u.nextReal(t.end); nc != '(' || strings.Contains(t.name, "*") {
+						continue
+					}
+					kind = "use-undeclared"
+				}
+				site := s.site(t, s.pkg, n, kind)
+				site.guard = c17Bin('&', []*c17F{site.guard, s.segs[s.u.seg[a.pos]].guard})
+				out = append(out, site)
 			}
 		case t.afterDot:
 			if len(t.quals) == 0 {
@@ -1223,6 +1281,10 @@ func (s *c17Scanner) uses(declared map[string]map[string]bool, types map[string]
 			if ok {
 				if n := tp + "." + t.name; declared[s.pkg][n] {
 					out = append(out, s.site(t, s.pkg, n, "use"))
+				} else if nc, _ := s.u.nextReal(t.end); nc == '(' && !strings.Contains(t.name, "*") {
+					// a method call on a template-declared type that no template declares: a use without any
+					// declaration site (its group has no definitions, so the use must be impossible)
+					out = append(out, s.site(t, s.pkg, n, "use-undeclared"))
 				}
 			}
 		default:
@@ -1549,6 +1611,11 @@ func extractC17(p *Program, w *Section) {
 	}
 	for _, sc := range scans {
 		allUses = append(allUses, sc.s.uses(declared, types, fieldTypes)...)
+	}
+	for _, u := range allUses {
+		if u.kind == "use-undeclared" {
+			declared[u.pkg][u.name] = true
+		}
 	}
 
 	// numbering
